@@ -106,6 +106,27 @@ Definition run_tee_case (id nres : Z) (rest : list Z) : list Z :=
   let '(out, tee) := tee_run rs [] in
   [4; id; tee_writes rs; zlen tee] ++ tee ++ enc_results out.
 
+(* 7 id nres (len err sw)*nres stream: TeeBackend with SetTee called during the reads; tee A installed at the start *)
+Fixpoint dec_results_sw (n : nat) (l : list Z) (acc : list (Z * bool * Z)) : list (Z * bool * Z) * list Z :=
+  match n with
+  | O => (rev acc, l)
+  | S n' =>
+      match l with
+      | len :: e :: sw :: rest => dec_results_sw n' rest ((len, negb (e =? 0), sw) :: acc)
+      | _ => (rev acc, [])
+      end
+  end.
+Fixpoint cut_stream_sw (lens : list (Z * bool * Z)) (stream : list Z) : list (result * Z) :=
+  match lens with
+  | [] => []
+  | (len, e, sw) :: rest => ((zfirstn len stream, e), sw) :: cut_stream_sw rest (zskipn len stream)
+  end.
+Definition run_tee_sw_case (id nres : Z) (rest : list Z) : list Z :=
+  let '(lens, stream) := dec_results_sw (Z.to_nat nres) rest [] in
+  let rs := cut_stream_sw lens stream in
+  let '(a, b) := tee_sw_run rs 1 [] [] in
+  [7; id; zlen a] ++ a ++ [-1; zlen b] ++ b ++ [-1] ++ enc_results (map fst rs).
+
 Definition run_resize_case (id w0 h0 w h : Z) : list Z :=
   let t0 := resize w0 h0 (init_term 80 24) in
   let '(t, calls) := resize_forward w h t0 [] in
@@ -123,6 +144,7 @@ Definition run_io_line (line : list Z) : list Z :=
   | 2 :: id :: c0 :: st :: en :: ncap :: rest => run_fill_case id c0 st en ncap rest
   | 3 :: id :: nb :: rest => run_write_case id nb rest
   | 4 :: id :: nres :: rest => run_tee_case id nres rest
+  | 7 :: id :: nres :: rest => run_tee_sw_case id nres rest
   | [5; id; w0; h0; w; h] => run_resize_case id w0 h0 w h
   | [6; id; w; h] => run_winsize_case id w h
   | _ => [-2]
